@@ -54,6 +54,7 @@ func (fx *FuncExec) execBlock(st *State, list []ast.Stmt) *State {
 // ghostAfter executes the ghost assignments attached to statement s.
 func (fx *FuncExec) ghostAfter(st *State, s ast.Stmt, before bool) {
 	var txt string
+	firedHere := map[string]bool{} // an identical clause written n times attaches to the first n matching statements
 	for _, ac := range fx.contract.After {
 		if ac.Used || ac.Before != before {
 			continue
@@ -66,6 +67,11 @@ func (fx *FuncExec) ghostAfter(st *State, s ast.Stmt, before bool) {
 		if !strings.HasPrefix(txt, strings.Join(strings.Fields(ac.Match), " ")) {
 			continue
 		}
+		fk := fmt.Sprintf("%s|%v|%s|%s|%s", ac.Match, ac.Assert, ac.Var, ac.Label, ac.Text)
+		if firedHere[fk] {
+			continue
+		}
+		firedHere[fk] = true
 		ac.Used = true
 		if ac.Assert {
 			pos := s.End()
@@ -74,8 +80,8 @@ func (fx *FuncExec) ghostAfter(st *State, s ast.Stmt, before bool) {
 			}
 			env := fx.specEnv(st, fx.entry, pos, "ghost assert")
 			g := env.Bool(ac.Expr)
-			fx.oblige(st, "assert", ac.Label, g, ac.Text, pos)
-			st.assume(g)
+			fx.oblige(st, "assert", ac.Label, g, ac.Text, pos).Using = ac.Using
+			fx.assumeTagged(st, g, "assert."+ac.Label)
 			continue
 		}
 		if dot := strings.LastIndex(ac.Var, "."); dot > 0 {
@@ -508,7 +514,7 @@ func (fx *FuncExec) nextLoop() loopSpec {
 	fx.loopOrd++
 	ls := loopSpec{ord: fx.loopOrd}
 	if fx.contract != nil {
-		ls.invs = fx.contract.LoopInv[ls.ord]
+		ls.invs = append(append([]*Clause(nil), fx.contract.LoopInv[0]...), fx.contract.LoopInv[ls.ord]...)
 		ls.dec = fx.contract.LoopDec[ls.ord]
 	}
 	return ls
@@ -772,7 +778,7 @@ func (fx *FuncExec) loopHead(st *State, ls loopSpec, pos token.Pos, bodyPos toke
 		env := fx.specEnv(st, fx.entry, bodyPos, fmt.Sprintf("loop %d invariant", ls.ord))
 		g := env.Bool(inv.Expr)
 		if !inv.Free {
-			fx.oblige(st, fmt.Sprintf("loop%d/inv-init", ls.ord), inv.Label, g, inv.Text, pos)
+			fx.oblige(st, fmt.Sprintf("loop%d/inv-init", ls.ord), inv.Label, g, inv.Text, pos).Using = inv.Using
 		}
 	}
 	head := st.clone()
@@ -813,9 +819,13 @@ func (fx *FuncExec) loopHead(st *State, ls loopSpec, pos token.Pos, bodyPos toke
 	for _, k := range ghostKeys {
 		head.vars[k] = fx.fresh(shortKey(k), fx.varSort[k])
 	}
-	for _, inv := range ls.invs {
+	for i, inv := range ls.invs {
 		env := fx.specEnv(head, fx.entry, bodyPos, fmt.Sprintf("loop %d invariant", ls.ord))
-		head.assume(env.Bool(inv.Expr))
+		tag := fmt.Sprintf("inv%d.%d", ls.ord, i+1)
+		if inv.Label != "" {
+			tag = fmt.Sprintf("inv%d.%s", ls.ord, inv.Label)
+		}
+		fx.assumeTagged(head, env.Bool(inv.Expr), tag)
 	}
 	return head
 }
@@ -830,7 +840,7 @@ func (fx *FuncExec) loopBack(st *State, ls loopSpec, pos token.Pos, bodyPos toke
 		}
 		env := fx.specEnv(st, fx.entry, bodyPos, fmt.Sprintf("loop %d invariant", ls.ord))
 		g := env.Bool(inv.Expr)
-		fx.oblige(st, fmt.Sprintf("loop%d/inv-preserve", ls.ord), inv.Label, g, inv.Text, pos)
+		fx.oblige(st, fmt.Sprintf("loop%d/inv-preserve", ls.ord), inv.Label, g, inv.Text, pos).Using = inv.Using
 	}
 	if ls.dec != nil {
 		envNew := fx.specEnv(st, fx.entry, bodyPos, "loop decreases")
@@ -963,6 +973,7 @@ func (fx *FuncExec) execRange(st *State, s *ast.RangeStmt) *State {
 		fx.ghostVar[fmt.Sprintf("idx%d", ls.ord)] = idxKey
 		st.vars[idxKey] = "0"
 		sKey := fmt.Sprintf("G:rslice%d", ls.ord)
+		fx.ghostVar[fmt.Sprintf("rslice%d", ls.ord)] = sKey
 		if !isInt {
 			fx.varSort[sKey] = "Slice"
 			fx.varType[sKey] = xt
